@@ -112,7 +112,7 @@ static void t_wcstombs(const wchar_t *src, size_t dmax, size_t len, int dnull, i
     if (faulted) { n_fault++; return; }
     cls(need, dmax, len, dnull, valid_prefix, cb);
     if (dnull) {
-        if (valid && len >= full) { if (full > 0 && (rc != 0 || ret != full)) report(fn, "query-wrong-length", cb, cs); }
+        if (valid && len >= full) { if (rc != 0 || ret != full) report(fn, "query-wrong-length", cb, cs); }
         return;
     }
     if (!valid_prefix) {
@@ -121,7 +121,6 @@ static void t_wcstombs(const wchar_t *src, size_t dmax, size_t len, int dnull, i
         if (restart) { size_t r2 = 0; const wchar_t *okp = L"ok"; char *d2 = dest_at(4, 1); int rc2 = f_wcsrtombs(&r2, d2, 4, &okp, 4, &ps, BOSU); if (rc2 != 0 || r2 != 2 || d2[0] != 'o') report(fn, "state-unusable-after-invalid-character", cb, cs); }
         return;
     }
-    if (need == 0) return;     /* empty result: the documented return is not uniform (l > 0 is required for EOK) - not judged */
     if (need + 1 <= dmax) {
         if (rc != 0) { report(fn, "valid-conversion-failed", cb, cs); return; }
         if (ret != need) { report(fn, "wrong-count", cb, cs); return; }
